@@ -1198,6 +1198,26 @@ func ruleC17(c *Ctx, r *Report) {
 	if n == 0 {
 		r.undecided(rule, name, "pieces-loop", c.Pos(fn.Pos()), "no doQuery call inside a loop over the pieces")
 	}
+	// nothing is executed before (or instead of) the split: every doQuery call lies on the splitter's nil-error edge
+	{
+		splits := callsIn(fn, func(cc *ssa.CallCommon) bool { return callsFunc(cc, split) })
+		k := 0
+		for _, ci := range callsIn(fn, func(cc *ssa.CallCommon) bool { return callsFunc(cc, doQuery) }) {
+			k++
+			cons := fmt.Sprintf("execution-after-split#%d", k)
+			good := false
+			for _, sp := range splits {
+				if call, ok := sp.(*ssa.Call); ok && dominatedByNilErr(ci, call) {
+					good = true
+				}
+			}
+			if good {
+				r.ok(rule, name, cons, c.Pos(ci.Pos()), "runs only after SplitStatementToPieces succeeded")
+			} else {
+				r.viol(rule, name, cons, c.Pos(ci.Pos()), "a statement text is executed without having been split by SplitStatementToPieces (a shortcut decides by other means that the packet is one statement): the semicolons inside it are not treated as statement boundaries")
+			}
+		}
+	}
 	// the pieces come from the splitter (def-use): the loop ranges over its first result
 	okSrc := false
 	for _, ci := range callsIn(fn, func(cc *ssa.CallCommon) bool { return callsFunc(cc, split) }) {
@@ -1240,6 +1260,11 @@ func ruleC17split(c *Ctx, r *Report) {
 	if len(scans) == 0 {
 		r.viol(rule, name, "pieces:from-token-stream", c.Pos(fn.Pos()), "the splitter does not drive the SQL lexer at all")
 		return
+	}
+	if okInv, why := scanLoopStopsOnInvalid(c, fn, scan); okInv {
+		r.ok(rule, name, "pieces:stops-on-invalid-token", c.Pos(fn.Pos()), "the `invalid` token ends the split with an error")
+	} else {
+		r.viol(rule, name, "pieces:stops-on-invalid-token", c.Pos(fn.Pos()), why)
 	}
 	blob := ssa.Value(fn.Params[0])
 	nret := 0
